@@ -617,3 +617,269 @@ func c12R8(ic *IC, r *Report) {
 	r.Check(len(bad) == 0, "R12.8", "arrayDeref/only-pointers-to-arrays", ic.pos(dfi.Decl.Pos()), "a pointer to a slice is not looked through",
 		"for a pointer to a slice arrayDeref can reach "+strings.Join(dedupStr(bad), ", ")+": len(p) and cap(p) with p of type *[]T are accepted by the type checker (only pointers to arrays may be looked through) and fail or misbehave at run time")
 }
+
+// R12.10: an impossible type assertion is rejected. In the loop of typeAssertionExpr over the
+// methods of the asserted-from interface, for an interpreted (non compiled) type that lacks
+// the method, every path through the iteration ends in a return of an error: decided on the
+// flow graph of the loop body pruned under `tm == nil` (the type has no such method),
+// `im != nil` and `isBin(typ) == false`. Reaching a continue, or the end of the body, means
+// the missing method is ignored and the assertion is compiled.
+func c12R10(ic *IC, r *Report) {
+	fi := ic.fn(r, "typecheck.typeAssertionExpr")
+	if fi == nil {
+		return
+	}
+	info := ic.Info
+	// the loop ranging over the method set, and the two lookups
+	var loop *ast.RangeStmt
+	ast.Inspect(fi.Decl.Body, func(n ast.Node) bool {
+		if rs, ok := n.(*ast.RangeStmt); ok && loop == nil {
+			if len(callsIn(info, rs.Body, false, "interp.lookupFieldOrMethod")) >= 2 {
+				loop = rs
+			}
+		}
+		return true
+	})
+	if loop == nil {
+		r.Errorf("R12.10: the loop over the interface's methods (two lookupFieldOrMethod calls) was not found in typeAssertionExpr")
+		return
+	}
+	// im := lookup(n.typ, name) (the interface side, first), tm := lookup(typ, name)
+	var lookups []types.Object
+	for _, st := range loop.Body.List {
+		if as, ok := st.(*ast.AssignStmt); ok && len(as.Lhs) == 1 && len(as.Rhs) == 1 {
+			if c, ok := unparen(as.Rhs[0]).(*ast.CallExpr); ok && isCallTo(info, c, "interp.lookupFieldOrMethod") {
+				if id, ok := as.Lhs[0].(*ast.Ident); ok {
+					lookups = append(lookups, info.ObjectOf(id))
+				}
+			}
+		}
+	}
+	if len(lookups) != 2 {
+		r.Errorf("R12.10: %d method lookups at the top of the loop body (2 expected)", len(lookups))
+		return
+	}
+	// which one is the asserted type's? the one whose first argument is the function's type parameter
+	var typParam types.Object
+	if ps := fi.Decl.Type.Params.List; len(ps) >= 2 && len(ps[1].Names) > 0 {
+		typParam = info.ObjectOf(ps[1].Names[0])
+	}
+	var tm, im types.Object
+	for _, st := range loop.Body.List {
+		if as, ok := st.(*ast.AssignStmt); ok && len(as.Rhs) == 1 {
+			if c, ok := unparen(as.Rhs[0]).(*ast.CallExpr); ok && isCallTo(info, c, "interp.lookupFieldOrMethod") && len(c.Args) == 2 {
+				id, _ := as.Lhs[0].(*ast.Ident)
+				if aid, ok := unparen(c.Args[0]).(*ast.Ident); ok && info.ObjectOf(aid) == typParam {
+					tm = info.ObjectOf(id)
+				} else {
+					im = info.ObjectOf(id)
+				}
+			}
+		}
+	}
+	if tm == nil || im == nil {
+		r.Errorf("R12.10: the lookups on the asserted type and on the interface were not told apart")
+		return
+	}
+	atom := func(e ast.Expr) int {
+		switch x := e.(type) {
+		case *ast.BinaryExpr:
+			if x.Op == token.EQL || x.Op == token.NEQ {
+				if id, ok := unparen(x.X).(*ast.Ident); ok && types.ExprString(x.Y) == "nil" {
+					res := triUnknown
+					switch info.ObjectOf(id) {
+					case tm:
+						res = triTrue
+					case im:
+						res = triFalse
+					}
+					if res != triUnknown && x.Op == token.NEQ {
+						res = 1 - res
+					}
+					return res
+				}
+			}
+		case *ast.CallExpr:
+			if isCallTo(info, x, "interp.isBin") {
+				return triFalse
+			}
+		}
+		return triUnknown
+	}
+	g := cfg.New(loop.Body, func(c *ast.CallExpr) bool { return !noReturn(info, c) })
+	var bad []string
+	seen := map[*cfg.Block]bool{}
+	var walk func(b *cfg.Block)
+	walk = func(b *cfg.Block) {
+		if seen[b] {
+			return
+		}
+		seen[b] = true
+		for _, n := range b.Nodes {
+			if _, ok := n.(*ast.ReturnStmt); ok {
+				return // rejected (every return in the loop returns an error)
+			}
+			if bs, ok := n.(*ast.BranchStmt); ok && bs.Tok == token.CONTINUE {
+				bad = append(bad, "continue at "+ic.pos(bs.Pos()))
+				return
+			}
+		}
+		if len(b.Succs) == 0 {
+			bad = append(bad, "the end of the loop body")
+			return
+		}
+		if len(b.Succs) == 2 && len(b.Nodes) > 0 {
+			if cond, ok := b.Nodes[len(b.Nodes)-1].(ast.Expr); ok {
+				switch evalCond(cond, atom) {
+				case triTrue:
+					walk(b.Succs[0])
+					return
+				case triFalse:
+					walk(b.Succs[1])
+					return
+				}
+			}
+		}
+		for _, s := range b.Succs {
+			walk(s)
+		}
+	}
+	if len(g.Blocks) > 0 {
+		walk(g.Blocks[0])
+	}
+	// every return inside the loop carries an error
+	nilRet := false
+	ast.Inspect(loop.Body, func(n ast.Node) bool {
+		if rs, ok := n.(*ast.ReturnStmt); ok && len(rs.Results) == 1 && types.ExprString(rs.Results[0]) == "nil" {
+			nilRet = true
+		}
+		return true
+	})
+	if nilRet {
+		bad = append(bad, "a return nil inside the loop")
+	}
+	r.Check(len(bad) == 0, "R12.10", "typeAssertionExpr/missing-method-is-an-error", ic.pos(loop.Pos()), "an interpreted type lacking a method of the interface makes the assertion impossible on every path",
+		"for an interpreted type that lacks a method of the asserted-from interface, the check can reach "+strings.Join(dedupStr(bad), ", ")+" without reporting the impossible type assertion: x.(T) with T missing the method compiles and the program runs")
+}
+
+// R12.11: constant index bounds. The helper checking a constant index compares it with a bound
+// `max`; the callers that check an element access (index expression, array literal key) and
+// the one that checks a slice bound must pass bounds consistent with the comparison used:
+// with `index >= max` rejected, elements pass the length and slice bounds the length + 1;
+// with `index > max`, elements pass length - 1 and slice bounds the length. A change of the
+// helper that is not followed by every caller accepts a[len] (or rejects a[len-1]).
+func c12R11(ic *IC, r *Report) {
+	fi := ic.fn(r, "typecheck.index")
+	if fi == nil {
+		return
+	}
+	info := ic.Info
+	var maxParam types.Object
+	if ps := fi.Decl.Type.Params.List; len(ps) >= 2 && len(ps[1].Names) > 0 {
+		maxParam = info.ObjectOf(ps[1].Names[0])
+	}
+	op := token.ILLEGAL
+	ast.Inspect(fi.Decl.Body, func(n ast.Node) bool {
+		be, ok := n.(*ast.BinaryExpr)
+		if !ok || (be.Op != token.GEQ && be.Op != token.GTR && be.Op != token.LSS && be.Op != token.LEQ) {
+			return true
+		}
+		if id, ok := unparen(be.Y).(*ast.Ident); ok && info.ObjectOf(id) == maxParam {
+			// the comparison of the index value (not of max itself: `max < 1` has max on the left)
+			if len(callsIn(info, be.X, true, "interp.vInt")) > 0 {
+				op = be.Op
+			}
+		}
+		return true
+	})
+	if op != token.GEQ && op != token.GTR {
+		r.Errorf("R12.11: the comparison of the constant index with the bound was not found in typecheck.index")
+		return
+	}
+	// offset of the bound passed by each caller, relative to the operand's length
+	offsetOf := func(caller *FuncInfo, arg ast.Expr) (int, bool) {
+		var eval func(e ast.Expr, depth int) (int, bool)
+		eval = func(e ast.Expr, depth int) (int, bool) {
+			switch x := unparen(e).(type) {
+			case *ast.BinaryExpr:
+				if tv, ok := info.Types[x.Y]; ok && tv.Value != nil && tv.Value.ExactString() == "1" {
+					if base, ok := eval(x.X, depth); ok {
+						if x.Op == token.ADD {
+							return base + 1, true
+						}
+						if x.Op == token.SUB {
+							return base - 1, true
+						}
+					}
+				}
+			case *ast.Ident:
+				if tv, ok := info.Types[x]; ok && tv.Value != nil {
+					return 0, false // a constant: no bound (e.g. -1)
+				}
+				if depth > 2 {
+					return 0, true
+				}
+				// a local re-assigned from <length> + 1 somewhere in the caller: take the largest offset
+				best, found := 0, false
+				obj := info.ObjectOf(x)
+				ast.Inspect(caller.Decl.Body, func(n ast.Node) bool {
+					if as, ok := n.(*ast.AssignStmt); ok && len(as.Lhs) == len(as.Rhs) {
+						for i, l := range as.Lhs {
+							if lid, ok := l.(*ast.Ident); ok && info.ObjectOf(lid) == obj {
+								if be, ok := unparen(as.Rhs[i]).(*ast.BinaryExpr); ok && (be.Op == token.ADD || be.Op == token.SUB) {
+									if o, ok := eval(be, depth+1); ok && (!found || o > best) {
+										best, found = o, true
+									}
+								}
+							}
+						}
+					}
+					return true
+				})
+				if found {
+					return best, true
+				}
+				return 0, true
+			case *ast.UnaryExpr:
+				return 0, false
+			case *ast.BasicLit:
+				return 0, false
+			}
+			return 0, true
+		}
+		return eval(arg, 0)
+	}
+	wantElem, wantSlice := 0, 1
+	if op == token.GTR {
+		wantElem, wantSlice = -1, 0
+	}
+	n := 0
+	for _, name := range sortedKeys(ic.F) {
+		caller := ic.F[name]
+		if caller.Decl.Body == nil || caller == fi {
+			continue
+		}
+		for _, c := range callsIn(info, caller.Decl.Body, true, "interp.typecheck.index") {
+			if len(c.Args) != 2 {
+				continue
+			}
+			off, bounded := offsetOf(caller, c.Args[1])
+			if !bounded {
+				continue
+			}
+			n++
+			isSlice := strings.Contains(strings.ToLower(name), "slice")
+			want := wantElem
+			kind := "an element access"
+			if isSlice {
+				want = wantSlice
+				kind = "a slice bound"
+			}
+			r.Check(off == want, "R12.11", name+"/constant-index-bound", ic.pos(c.Pos()), fmt.Sprintf("%s passes length%+d to a helper rejecting index %s bound", kind, off, op),
+				fmt.Sprintf("%s checks %s by passing length%+d to typecheck.index, which rejects index %s bound: consistent would be length%+d. A constant index equal to the length of an array (a[3] with [3]int) is compiled and panics at run time, or a valid last index is rejected", name, kind, off, op, want))
+		}
+	}
+	if n < 3 {
+		r.Errorf("R12.11: only %d bounded callers of typecheck.index found (index expression, array literal, slice expression expected)", n)
+	}
+}
